@@ -100,10 +100,27 @@ func judgeX(rec *ev.Rec, scalar, point []byte, path string) bool {
 			if !bytes.Equal(d1[:], want) {
 				bad = fmt.Sprintf("ScalarMult = %x, model = %x", d1, want)
 			}
+			if !bytes.Equal(in[:], scalar) || !bytes.Equal(base[:], point) {
+				bad = "ScalarMult modified its scalar or point argument"
+			}
 			if bytes.Equal(point, nine) {
 				x25519.ScalarBaseMult(&d2, &in)
 				if !bytes.Equal(d2[:], want) {
 					bad = fmt.Sprintf("ScalarBaseMult = %x, model ladder on the base point = %x", d2, want)
+				}
+				if !bytes.Equal(in[:], scalar) {
+					bad = fmt.Sprintf("ScalarBaseMult modified its scalar argument: %x -> %x", scalar, in)
+				}
+				// destination aliasing the scalar (in-place use of the array API)
+				d3 := in
+				x25519.ScalarBaseMult(&d3, &d3)
+				if !bytes.Equal(d3[:], want) {
+					bad = fmt.Sprintf("ScalarBaseMult(&k, &k) = %x, model = %x", d3, want)
+				}
+				d4 := in
+				x25519.ScalarMult(&d4, &d4, &base)
+				if !bytes.Equal(d4[:], want) {
+					bad = fmt.Sprintf("ScalarMult(&k, &k, base) = %x, model = %x", d4, want)
 				}
 			}
 		}
